@@ -27,7 +27,9 @@ def run(repo, R):
     R.rule("A4", "segment-major flattening of each shell block")
     R.rule("AXTYPE-K", "kernels well-typed in the axis-provenance domain")
     R.rule("K", "the segment (column) axis of every shell is the free index directly before that shell's component axis")
-    runs = run_all(repo, R)
+    # C13 is about the primitive (K) and segment (M) axes: a mismatch between other axes (recursion-table windows, components) changes
+    # the values of that operator - its own property - but not how contractions combine
+    runs = run_all(repo, R, relevant=lambda inv: any(isinstance(b, tuple) and len(b) >= 2 and b[0] == "dim" and b[1] in ("K", "M") for b in inv))
     findings = []
     n_lin = 0
     for name, f, ex in runs:
